@@ -40,7 +40,59 @@ let str_of_tc t = Printf.sprintf "%s %s %s %s" (hex_of_bytes t.tc_before) (str_o
 
 let res f = function Ok x -> "ok " ^ f x | Err e -> "err " ^ exn_name e
 
+(* ---- strategy runs ---- *)
+let str_of_answer = function Yes -> "Y" | No -> "N" | Raise -> "R"
+let str_of_tname = function
+  | Original -> "original"
+  | Numbered (k, i) -> Printf.sprintf "%d-%s" (int_of_z k) (if i then "interesting" else "boring")
+let str_of_event = function
+  | EInit -> "I" | ECleanup -> "X"
+  | EWrite _ -> "W"
+  | ETest (k, p, f, a) -> Printf.sprintf "T %d %d %s %s" (int_of_z k) (int_of_z p) (hex_of_bytes f) (str_of_answer a)
+  | ECopy (n, _) -> "C " ^ str_of_tname n
+let str_of_temp w =
+  let seen = Hashtbl.create 16 in
+  let l = List.filter_map (fun (n, b) ->
+      let s = str_of_tname n in
+      if Hashtbl.mem seen s then None else (Hashtbl.add seen s (); Some (s, b))) w.w_temp in
+  let l = List.sort (fun (a, _) (b, _) -> compare a b) l in
+  String.concat "," (List.map (fun (s, b) -> s ^ "=" ^ hex_of_bytes b) l)
+let str_of_world w =
+  Printf.sprintf "%s | file=%s tests=%d tfc=%d total=%d temp=%s"
+    (String.concat ";" (List.rev_map str_of_event w.w_trace))
+    (hex_of_bytes w.w_file) (int_of_z w.w_tests) (int_of_z w.w_tfc) (int_of_z w.w_total) (str_of_temp w)
+let str_of_result = function
+  | Finished (rc, w) -> Printf.sprintf "%s rc=%d" (str_of_world w) (int_of_z rc)
+  | Aborted (None, w) -> Printf.sprintf "%s exc=test" (str_of_world w)
+  | Aborted (Some e, w) -> Printf.sprintf "%s exc=%s" (str_of_world w) (exn_name e)
+  | NoFuel w -> Printf.sprintf "%s nofuel" (str_of_world w)
+let verdict_of s = fun k _file ->
+  let i = int_of_z k - 1 in
+  if i < 0 || i >= String.length s then No
+  else match s.[i] with 'Y' -> Yes | 'R' -> Raise | _ -> No
+let clock_of s =
+  let a = Array.of_list (if s = "-" then [] else List.map int_of_string (String.split_on_char ',' s)) in
+  fun n -> let i = int_of_nat n in
+    if Array.length a = 0 then Z0 else z_of_int (if i < Array.length a then a.(i) else a.(Array.length a - 1))
+let rep_of = function "always" -> Always | "last" -> Last | "never" -> Never | s -> failwith ("repeat " ^ s)
+let cfg_of mn mx rp first limit =
+  { c_min = z_of mn; c_max = z_of mx; c_repeat = rep_of rp; c_first = (first = "T"); c_limit = zopt_of limit }
+
 let handle toks = match toks with
+  | ["run"; "minimize"; mn; mx; rp; first; limit; clk; b; p; r; a; file0; verdicts; fuel] ->
+      let strat = minimize (cfg_of mn mx rp first limit) (clock_of clk) no_post in
+      str_of_result (run strat (verdict_of verdicts) (nat_of_int (int_of_string fuel)) (tc_of b p r a) (bytes_of_hex file0))
+  | ["run"; "replay"; steps; b; p; r; a; file0; verdicts; fuel] ->
+      let step_of s =
+        let body = String.sub s 2 (String.length s - 2) in
+        if s.[0] = 'W' then RRaw (bytes_of_hex body)
+        else (match String.split_on_char '/' body with
+            | [b; p; r; a] -> RProp (tc_of b p r a)
+            | _ -> failwith "replay step") in
+      let steps = if steps = "-" then [] else List.map step_of (String.split_on_char '+' steps) in
+      str_of_result (run (replay steps) (verdict_of verdicts) (nat_of_int (int_of_string fuel)) (tc_of b p r a) (bytes_of_hex file0))
+  | ["run"; "check-only"; b; p; r; a; file0; verdicts] ->
+      str_of_result (run_check_only (verdict_of verdicts) (tc_of b p r a) (bytes_of_hex file0))
   | ["dru"; a; b] -> res (fun z -> string_of_int (int_of_z z)) (divide_rounding_up (z_of a) (z_of b))
   | ["ipo2"; a] -> if is_power_of_two (z_of a) then "ok T" else "ok F"
   | ["lpo2"; a] -> "ok " ^ string_of_int (int_of_z (largest_power_of_two_smaller_than (z_of a)))
